@@ -201,18 +201,28 @@ func c16Leader(o opts, g *gen.G, w *emit.Writer) error {
 			return context.WithTimeout(context.Background(), d)
 		}
 		scenario := []string{"attach", "attach", "moves", "lost"}[g.Intn(4)]
-		if ci < 3 {
-			scenario = []string{"attach", "moves", "lost"}[ci]
+		if ci < 4 {
+			scenario = []string{"attach", "moves", "lost", "attach3"}[ci]
 		}
 		w.Count("leader:" + scenario)
 		var terms []string
 		switch scenario {
-		case "attach":
+		case "attach", "attach3":
 			n := 1 + g.Intn(3)
+			// attach3: three or four endpoints, the only acceptable one neither first nor last; the client must name it
+			// as its endpoint, and leave it when it loses the leadership to the first one
+			var fixed []string
+			if scenario == "attach3" {
+				fixed = [][]string{{"follower", "leader", "follower"}, {"follower", "follower", "leader", "follower"}, {"follower", "leader", "follower", "follower"}}[g.Intn(3)]
+				n = len(fixed)
+			}
 			var labs []*leaderLab
 			var roles []string
 			for i := 0; i < n; i++ {
 				role := []string{"leader", "follower", "follower", "standalone", "norow"}[g.Intn(5)]
+				if fixed != nil {
+					role = fixed[i]
+				}
 				l, err := mkLab(role, i)
 				if err != nil {
 					return err
@@ -222,6 +232,9 @@ func c16Leader(o opts, g *gen.G, w *emit.Writer) error {
 				roles = append(roles, role)
 			}
 			copts := []client.Option{client.WithLeaderOnly(true), client.WithLogger(&quiet)}
+			if fixed != nil {
+				copts = append(copts, client.WithReconnect(2*time.Second, backoff.NewConstantBackOff(15*time.Millisecond)))
+			}
 			for _, l := range labs {
 				copts = append(copts, client.WithEndpoint("unix:"+l.sock))
 			}
@@ -250,8 +263,34 @@ func c16Leader(o opts, g *gen.G, w *emit.Writer) error {
 					}
 				}
 			}
-			cl.Close()
 			terms = append(terms, decision(labs, obs))
+			if fixed != nil && err == nil && obs > 0 {
+				// the leadership moves from the endpoint in the middle to the first one of the list
+				ctx, cancel := ctxD(3 * time.Second)
+				_, merr := cl.MonitorAll(ctx)
+				cancel()
+				if merr != nil {
+					fail("monitor: %v", merr)
+				}
+				if err := labs[obs].setLeader(sc.Name, false); err != nil {
+					return err
+				}
+				if err := labs[0].setLeader(sc.Name, true); err != nil {
+					return err
+				}
+				deadline := time.Now().Add(8 * time.Second)
+				moved := false
+				for time.Now().Before(deadline) && !moved {
+					moved = cl.Connected() && cl.CurrentEndpoint() == "unix:"+labs[0].sock
+					if !moved {
+						time.Sleep(10 * time.Millisecond)
+					}
+				}
+				if !moved {
+					fail("roles %v: 8 s after the leadership moved from endpoint %d to endpoint 0 the client is on %q (connected %v)", roles, obs, cl.CurrentEndpoint(), cl.Connected())
+				}
+			}
+			cl.Close()
 		case "moves":
 			a, err := mkLab("leader", 1)
 			if err != nil {
